@@ -1338,7 +1338,8 @@ def transact_rules(chk, pid):
     # guards (C10.R1 custom price, zero quantity no-op)
     pw = S.writes(R.POSITION, SELF)
     if pid in ("C01", "C02", "C07", "C10"):
-        first_effect = min([w.seq for w in pw] + [w.seq for w in S.writes(R.NEEDUPDATE, SELF)] + [e.seq for e in adj] or [10 ** 9])
+        # (raising the security's own refresh flag is not part of the trade: it only makes the next update of the parent look at the security again)
+        first_effect = min([w.seq for w in pw] + [w.seq for w in S.writes(R.NEEDUPDATE, SELF) if canon(w.value) != canon(sym.TRUE)] + [e.seq for e in adj] or [10 ** 9])
         late = [r for r in S.raises if r.seq > first_effect and own_event(r, S.fn.qual)]
         chk.ob("C02.R1", not late, CORE, host, "no-partial-trade-on-error", "a refused trade changes nothing: every error is raised before the position, the flags or the parent's cash are touched",
                where=late[0].where if late else fi.where, expected="raise before the first write", found="%d raise sites after the position changed" % len(late))
